@@ -373,6 +373,10 @@ pub fn subjects() -> Vec<&'static str> {
     ]
 }
 
+fn is_hybrid_shape(s: &str) -> bool {
+    (s.starts_with("LocomotiveSimulation:") || s.starts_with("ConsistSimulation:")) && (s.ends_with(":3") || s.ends_with(":4"))
+}
+
 fn is_sim(s: &str) -> bool {
     s.rsplit(':').next().map(|x| x.parse::<usize>().is_ok()).unwrap_or(false)
 }
@@ -503,7 +507,7 @@ impl Prop for C17 {
         "fault_enumeration"
     }
     fn rule(&self, tier: Tier) -> String {
-        format!("E-CKPT: {} catalogue entries (the four components default and stepped, Locomotive conv/BEL/hybrid/dummy, Consist default and stepped, PowerTrace, SpeedTrace, RailVehicle, TrainConfig, TrainSimBuilder, TrainParams, PathTpc unfinished/finished, FricBrake, Network, EstTimeNet, timed path, SetSpeedTrainSim::default, SpeedLimitTrainSim::valid, and three run shapes each of LocomotiveSimulation / ConsistSimulation / SetSpeedTrainSim / SpeedLimitTrainSim, plus two hybrid-unit shapes each of LocomotiveSimulation / ConsistSimulation) x formats {{yaml, json, bin}} x {{string/bytes API, to_file/from_file onto a path that already holds a longer file}} x EVERY step index 0..{} of the runs as the checkpoint position (checkpoint = crash point). Oracle: save and load succeed, load(save(x)) == load(save(load(save(x)))), the reloaded object describes the same object, and the run resumed from the reloaded copy reproduces every remaining step and the final state (bit-exact for yaml/bin, 1e-9 relative for json). distinct_nontrivial = distinct (subject, format, outcome class) signatures.", subjects().len(), n_steps(tier))
+        format!("E-CKPT: {} catalogue entries (the four components default and stepped, Locomotive conv/BEL/hybrid/dummy, Consist default and stepped, PowerTrace, SpeedTrace, RailVehicle, TrainConfig, TrainSimBuilder, TrainParams, PathTpc unfinished/finished, FricBrake, Network, EstTimeNet, timed path, SetSpeedTrainSim::default, SpeedLimitTrainSim::valid, and three run shapes each of LocomotiveSimulation / ConsistSimulation / SetSpeedTrainSim / SpeedLimitTrainSim, plus two hybrid-unit shapes each of LocomotiveSimulation / ConsistSimulation) x formats {{yaml, json, bin}} x {{string/bytes API, to_file/from_file onto a path that already holds a longer file}} x EVERY step index 0..{} of the runs (0..65 for the hybrid shapes in the thorough tier: past the hybrid controller's 60-step re-optimisation interval) as the checkpoint position (checkpoint = crash point). Oracle: save and load succeed, load(save(x)) == load(save(load(save(x)))), the reloaded object describes the same object, and the run resumed from the reloaded copy reproduces every remaining step and the final state (bit-exact for yaml/bin, 1e-9 relative for json). distinct_nontrivial = distinct (subject, format, outcome class) signatures.", subjects().len(), n_steps(tier))
     }
     fn assumptions(&self) -> Vec<String> {
         vec![
@@ -513,8 +517,10 @@ impl Prop for C17 {
         ]
     }
     fn explore(&self, ctx: &mut Ctx) {
-        let n = n_steps(ctx.tier);
+        let n_default = n_steps(ctx.tier);
         for s in subjects() {
+            // hybrid run shapes, thorough tier: long enough to cross the hybrid controller's re-optimisation interval (60 steps)
+            let n = if ctx.tier.is_thorough() && is_hybrid_shape(s) { 65 } else { n_default };
             for fmt in FORMATS {
                 for file in [false, true] {
                     let cps: Vec<usize> = if is_sim(s) { (0..=n).collect() } else { vec![0] };
@@ -547,7 +553,10 @@ impl Prop for C17 {
         let mut checks = 0;
         // the run length is part of the tier; replay with both and report the union of keys deterministically
         let (mut f, _) = run_case(&c, 8, &mut checks);
-        let (f2, _) = run_case(&c, 25, &mut checks);
+        let (mut f2, _) = run_case(&c, 25, &mut checks);
+        if is_hybrid_shape(&c.subject) {
+            f2.extend(run_case(&c, 65, &mut checks).0);
+        }
         for x in f2 {
             if !f.iter().any(|y| y.0 == x.0) {
                 f.push(x);
